@@ -116,6 +116,7 @@ type concFrame struct {
 	start   int    // byte offset of the frame
 	hdrLen  int
 	end     int // offset one past the last byte sent for this frame
+	zsync   int // single-frame compressed message of a mid-message-flush variant: payload offset of the flush marker (0 = none)
 }
 
 type readerRun struct {
@@ -281,6 +282,11 @@ func (r *readerRun) concretise() []byte {
 			comp, err := wire.DeflateMsg(plain, f.Comp)
 			if err != nil {
 				panic(err)
+			}
+			if f.Fin {
+				if so := wire.SyncOffset(plain, f.Comp); so > 0 {
+					r.cf[i].zsync = so
+				}
 			}
 			// frames of this message: i and following continuation frames
 			idx := []int{i}
@@ -450,6 +456,18 @@ func chunkSizes(kind string, n int, rng *rand.Rand, cf []concFrame) []int {
 		for _, f := range cf {
 			if f.end > f.start {
 				out = append(out, f.end-f.start)
+			}
+		}
+	case "zsync":
+		// compressed frames of a sender that flushed inside the message: split exactly where that flush's
+		// 00 00 ff ff begins (what arrived before is a complete deflate prefix); other frames as "hdr"
+		for _, f := range cf {
+			out = append(out, f.hdrLen)
+			pl := f.end - f.start - f.hdrLen
+			if f.zsync > 0 && f.zsync < pl {
+				out = append(out, f.zsync, pl-f.zsync)
+			} else if pl > 0 {
+				out = append(out, pl)
 			}
 		}
 	case "hdr":
